@@ -18,7 +18,12 @@ var metaFuncList = []string{"Metadata", "MetadataWithSLO"}
 
 var metaOut []byte
 
-func init() {
+// installMetaTables: this unit's binding-table entries.  The tables are global and two units may bind the same key differently
+// (e.g. Document.WriteToString): the entries are installed when the package is initialised (so that the shared analysis
+// sees them) and again right before the unit is emitted.
+func init() { installMetaTables() }
+
+func installMetaTables() {
 	recvModel["Metadata"] = "md_config"
 	recvModel["MetadataWithSLO"] = "md_config"
 	recvCoerce["md_config>keycfg"] = "mc_keys"
@@ -102,6 +107,7 @@ func init() {
 
 // emitMetaFuncs runs on the translator state of emitFuncs (the key getters of GenFuncs.v are callees)
 func emitMetaFuncs(x *xlat) []byte {
+	installMetaTables()
 	for k, v := range foreignStructs {
 		x.structs[k] = v
 	}
